@@ -13,6 +13,7 @@ from typing import Callable, List, Optional
 from .errors import JSSyntaxError, JSTypeError
 from .values import (
     NULL,
+    UNDEFINED,
     JSArray,
     JSObject,
     JSValue,
@@ -290,7 +291,7 @@ class _JSONSerializer:
                 value = (
                     self.call(getter, obj, [])
                     if getter is not None and self.call is not None
-                    else None
+                    else UNDEFINED  # (an accessor without a getter reads as undefined)
                 )
             else:
                 value = obj.get(key)
